@@ -23,15 +23,15 @@ type Env struct {
 
 // EnvOpt tunes the environment.
 type EnvOpt struct {
-	UserMethods  bool // some structs get user Equal methods (C02)
-	NoExt        bool
-	ExportedOnly bool // only exported fields (GoString)
-	NoPrivateExt bool // ext structs have exported fields only
-	MaxStructs   int
-	DistinctExt  bool // imported packages have distinct package names
-	PtrKeys      bool // also declare a key struct that holds a pointer (legal Go map key, compared by identity)
-	NoFloatKeys  bool
-	BlankFields  bool // some structs have blank fields (_ T): legal Go, only judged at type level (C01)
+	UserMethods   bool // some structs get user Equal methods (C02)
+	NoExt         bool
+	ExportedOnly  bool // only exported fields (GoString)
+	NoPrivateExt  bool // ext structs have exported fields only
+	MaxStructs    int
+	DistinctExt   bool // imported packages have distinct package names
+	PtrKeys       bool // also declare a key struct that holds a pointer (legal Go map key, compared by identity)
+	NoFloatKeys   bool
+	NoBlankFields bool // by default one struct in four has a blank field (_ T) of a basic type
 	// Avoid lists finding ids whose region the generator must not enter.
 	Avoid map[string]bool
 }
@@ -187,7 +187,7 @@ func DrawEnv(t *rapid.T, opt EnvOpt) *Env {
 			ft := e.drawType(t, 3, byValue, gen, d)
 			d.Fields = append(d.Fields, Field{Name: name, Type: ft})
 		}
-		if opt.BlankFields && rapid.IntRange(0, 3).Draw(t, "blankfield") == 0 {
+		if !opt.NoBlankFields && rapid.IntRange(0, 3).Draw(t, "blankfield") == 0 {
 			bf := Field{Name: "_", Type: B(pick(t, "blanktype", []string{"int", "string", "uint8", "bool"}))}
 			at := rapid.IntRange(0, len(d.Fields)).Draw(t, "blankat")
 			d.Fields = append(d.Fields[:at], append([]Field{bf}, d.Fields[at:]...)...)
